@@ -171,6 +171,7 @@ type evaluator struct {
 	c     *Ctx
 	specs map[types.Object]*specSite
 	depth int
+	env   map[types.Object]*Val // loop variables of an init() loop being unrolled
 }
 
 type specSite struct {
@@ -243,6 +244,9 @@ func (ev *evaluator) expr(p *packages.Package, e ast.Expr) *Val {
 		if x.Name == "nil" {
 			return &Val{Kind: "nil", Pos: e.Pos()}
 		}
+		if v := ev.env[info.Uses[x]]; v != nil && info.Uses[x] != nil {
+			return v
+		}
 		return ev.object(info.Uses[x], e.Pos())
 	case *ast.SelectorExpr:
 		if o := info.Uses[x.Sel]; o != nil {
@@ -255,6 +259,21 @@ func (ev *evaluator) expr(p *packages.Package, e ast.Expr) *Val {
 		if x.Op == token.AND {
 			return ev.expr(p, x.X)
 		}
+	case *ast.BinaryExpr:
+		a, b := ev.expr(p, x.X), ev.expr(p, x.Y)
+		if a.IsConst() && b.IsConst() && a.Const.Kind() == constant.Int && b.Const.Kind() == constant.Int {
+			switch x.Op {
+			case token.ADD, token.SUB, token.MUL:
+				return &Val{Kind: "const", Const: constant.BinaryOp(a.Const, x.Op, b.Const), Type: info.TypeOf(e), Pos: e.Pos()}
+			}
+		}
+		return unknown("expression "+types.ExprString(e), e.Pos())
+	case *ast.IndexExpr:
+		l, i := ev.expr(p, x.X), ev.expr(p, x.Index)
+		if n, ok := i.Int(); ok && l.Kind == "list" && n >= 0 && int(n) < len(l.Elems) {
+			return l.Elems[n]
+		}
+		return unknown("expression "+types.ExprString(e), e.Pos())
 	case *ast.CallExpr:
 		if tv, ok := info.Types[x.Fun]; ok && tv.IsType() && len(x.Args) == 1 {
 			v := ev.expr(p, x.Args[0])
@@ -273,6 +292,9 @@ func (ev *evaluator) expr(p *packages.Package, e ast.Expr) *Val {
 				v.Args = append(v.Args, ev.expr(p, a))
 			}
 			return v
+		}
+		if b, ok := info.Uses[identOf(x.Fun)].(*types.Builtin); ok && b.Name() == "make" {
+			return &Val{Kind: "call", Fn: "make", Type: info.TypeOf(e), Pos: e.Pos()} // an empty map or list, to be filled in init()
 		}
 		return unknown("dynamic call "+types.ExprString(x.Fun), e.Pos())
 	case *ast.CompositeLit:
@@ -406,25 +428,90 @@ func (ev *evaluator) InitAssignments(obj types.Object) (keys, vals []*Val, keyEx
 			if !ok || fd.Name.Name != "init" || fd.Recv != nil || fd.Body == nil {
 				continue
 			}
-			for _, st := range fd.Body.List {
-				as, ok := st.(*ast.AssignStmt)
-				if !ok || len(as.Lhs) != 1 || len(as.Rhs) != 1 {
-					continue
-				}
-				ix, ok := as.Lhs[0].(*ast.IndexExpr)
-				if !ok {
-					continue
-				}
-				if pkg.TypesInfo.Uses[identOf(ix.X)] != obj {
-					continue
-				}
-				keys = append(keys, ev.expr(pkg, ix.Index))
-				vals = append(vals, ev.expr(pkg, as.Rhs[0]))
-				keyExprs = append(keyExprs, ix.Index)
-			}
+			ev.initStmts(pkg, obj, fd.Body.List, &keys, &vals, &keyExprs)
 		}
 	}
 	return
+}
+
+// initStmts collects the assignments `obj[k] = v` of a statement list of init(). A loop over a list that can be read
+// off (`for i, name := range names { obj[name] = T(i) }`) is unrolled: the statements of its body are evaluated once per
+// element with the loop variables bound; a loop whose keys or values cannot be read off that way contributes nothing
+// (the rules have other ways of reading such tables and report what they cannot read).
+func (ev *evaluator) initStmts(pkg *packages.Package, obj types.Object, list []ast.Stmt, keys, vals *[]*Val, keyExprs *[]ast.Expr) {
+	assignsObj := func(n ast.Node) bool {
+		found := false
+		ast.Inspect(n, func(m ast.Node) bool {
+			if as, ok := m.(*ast.AssignStmt); ok {
+				for _, l := range as.Lhs {
+					if ix, ok := l.(*ast.IndexExpr); ok && pkg.TypesInfo.Uses[identOf(ix.X)] == obj {
+						found = true
+					}
+				}
+			}
+			return !found
+		})
+		return found
+	}
+	for _, st := range list {
+		switch x := st.(type) {
+		case *ast.AssignStmt:
+			if len(x.Lhs) != 1 || len(x.Rhs) != 1 {
+				continue
+			}
+			ix, ok := x.Lhs[0].(*ast.IndexExpr)
+			if !ok || pkg.TypesInfo.Uses[identOf(ix.X)] != obj {
+				continue
+			}
+			*keys = append(*keys, ev.expr(pkg, ix.Index))
+			*vals = append(*vals, ev.expr(pkg, x.Rhs[0]))
+			*keyExprs = append(*keyExprs, ix.Index)
+		case *ast.RangeStmt:
+			if !assignsObj(x.Body) {
+				continue
+			}
+			l := ev.expr(pkg, x.X)
+			plain := l.Kind == "list" && x.Tok == token.DEFINE
+			if plain {
+				if v, isVar := l.Var.(*types.Var); isVar && len(ev.c.globalWrites(v)) > 0 {
+					plain = false
+				}
+			}
+			for _, b := range x.Body.List {
+				if _, isAssign := b.(*ast.AssignStmt); !isAssign {
+					plain = false
+				}
+			}
+			if !plain {
+				continue // left to the rule's other ways of reading the table (folding, the loop forms it knows)
+			}
+			n0 := len(*keys)
+			if ev.env == nil {
+				ev.env = map[types.Object]*Val{}
+			}
+			for i, el := range l.Elems {
+				if id, ok := x.Key.(*ast.Ident); ok && id.Name != "_" {
+					ev.env[pkg.TypesInfo.Defs[id]] = &Val{Kind: "const", Const: constant.MakeInt64(int64(i)), Type: types.Typ[types.Int], Pos: id.Pos()}
+				}
+				if id, ok := x.Value.(*ast.Ident); ok && id.Name != "_" {
+					ev.env[pkg.TypesInfo.Defs[id]] = el
+				}
+				ev.initStmts(pkg, obj, x.Body.List, keys, vals, keyExprs)
+			}
+			for _, e := range []ast.Expr{x.Key, x.Value} {
+				if id, ok := e.(*ast.Ident); ok {
+					delete(ev.env, pkg.TypesInfo.Defs[id])
+				}
+			}
+			// all or nothing: a loop whose keys or values cannot be read off contributes no entries
+			for i := n0; i < len(*keys); i++ {
+				if (*keys)[i].Kind == "unknown" || (*vals)[i].Kind == "unknown" {
+					*keys, *vals, *keyExprs = (*keys)[:n0], (*vals)[:n0], (*keyExprs)[:n0]
+					break
+				}
+			}
+		}
+	}
 }
 
 // ---- SSA value description -------------------------------------------------
